@@ -495,6 +495,12 @@ class SymmetryElement(object):
         new_symm.centric = self.centric
         return new_symm
 
+    def inverted(self) -> 'SymmetryElement':
+        """
+        Returns the operator combined with the inversion at the origin: (-R, -t).
+        """
+        return SymmetryElement(self.to_shelxl().split(','), centric=True)
+
     def to_shelxl(self):
         """
         Generate and return string representation of Symmetry Operation in Shelxl syntax.
